@@ -341,6 +341,24 @@ def m_slice_concat(e, c, a):
     return Str(out)
 def m_box_slice_into_vec(e, c, a): return unref(a[0])
 def m_vec_into_boxed(e, c, a): return a[0]
+def m_box_new_uninit(e, c, a): return Ref(Cell(None), True, 'box')
+def _find_vec(v, depth=0):
+    v = unref(v)
+    if type(v) is VecV: return v
+    if type(v) is Adt and depth < 6:
+        for f in reversed(v.fields):
+            r = _find_vec(f.v, depth + 1)
+            if r is not None: return r
+    return None
+def m_box_assume_init_into_vec(e, c, a):
+    r = _find_vec(a[0])
+    if r is None: raise Unsupported('box_assume_init_into_vec_unsafe: no array written')
+    return r
+def m_range_iter(e, c, a):
+    r = unref(a[0])
+    lo, hi = r.fields[0].v, r.fields[1].v
+    if is_sym(lo) or is_sym(hi): raise Unsupported('symbolic range')
+    return Iter(list(range(lo, hi)))
 
 # ---------------------------------------------------------------- iterators
 def into_iter_value(e, v):
@@ -354,6 +372,10 @@ def into_iter_value(e, v):
         if type(w) is Adt and w.ty == 'Option': return Iter([Ref(w.fields[0])] if w.variant == 'Some' else [])
         if type(w) in (Iter, LazyIter): return w
     if t is Adt and v.ty == 'Option': return Iter([v.fields[0].v] if v.variant == 'Some' else [])
+    if t is Adt and v.ty in ('Range', 'RangeInclusive'):
+        lo, hi = v.fields[0].v, v.fields[1].v
+        if is_sym(lo) or is_sym(hi): raise Unsupported('symbolic range')
+        return Iter(list(range(lo, hi + (1 if v.ty == 'RangeInclusive' else 0))))
     if t is Adt and v.ty == 'tuple' and not v.fields: return Iter([])
     if t is Adt:
         f = e.impls.get((base(v.ty), 'IntoIterator', 'into_iter'))
@@ -363,6 +385,12 @@ def into_iter_value(e, v):
 def iter_next(e, it):
     """returns (True, value) or (False, None)"""
     if type(it) is Ref: it = unref(it)
+    if type(it) is Adt and it.ty in ('Range', 'RangeInclusive'):
+        lo, hi = it.fields[0].v, it.fields[1].v
+        if is_sym(lo) or is_sym(hi): raise Unsupported('symbolic range')
+        if lo < hi + (1 if it.ty == 'RangeInclusive' else 0):
+            it.fields[0].v = lo + 1; return (True, lo)
+        return (False, None)
     if type(it) is Adt:
         f = e.impls.get((base(it.ty), 'Iterator', 'next'))
         if f is None: raise Unsupported('next on %r' % (it,))
@@ -1257,6 +1285,8 @@ MODELS = [(re.compile(p, re.S), f) for p, f in [
     (r'(std|alloc)::slice::<impl \[.*\]>::join::<.*>$', m_slice_join),
     (r'(std|alloc)::slice::<impl \[.*\]>::concat::<.*>$', m_slice_concat),
     (r'Box::<.*>::new$', m_box_new),
+    (r'Box::<.*>::new_uninit$', m_box_new_uninit),
+    (r'std::boxed::box_assume_init_into_vec_unsafe::<.*>$', m_box_assume_init_into_vec),
     (r'(std::rc::)?Rc::<.*>::new$|(std::sync::)?Arc::<.*>::new$', m_rc_new),
     (r'(std::rc::)?Rc::<.*>::ptr_eq$|(std::sync::)?Arc::<.*>::ptr_eq$', m_rc_ptr_eq),
     (r'<(std::rc::)?Rc<.*> as Deref>::deref$|<(std::sync::)?Arc<.*> as Deref>::deref$', m_rc_deref),
